@@ -355,6 +355,10 @@ fn fixed_sets(rng: &mut Rng, n_adv: usize) -> Vec<Set> {
         let cases = [
             "{% for x in c %}{% filter upper %}{% break %}{% endfilter %}{% endfor %}",
             "{% for x in c %}{% set w %}{% continue %}{% endset %}{% endfor %}",
+            "{% for i in [1, 2, 3] %}{% filter upper %}a{% if i == 2 %}{% break %}{% endif %}b{% endfilter %}{% endfor %}z",
+            "{% for i in [1, 2, 3] %}{% set w %}a{% if i == 2 %}{% continue %}{% else %}c{% endif %}b{% endset %}{{ w }}{% endfor %}z",
+            "{% for i in [1, 2] %}{% <w> %}{% if i %}{% for j in [1] %}{% break %}{% endfor %}{% break %}{% endif %}{% </w> %}{% endfor %}{% component w() %}{{ body }}{% endcomponent %}",
+            "{% for i in [1, 2] %}{% filter upper %}{% for j in [3, 4] %}{% if j == 4 %}{% break %}{% endif %}{{ j }}{% endfor %}{% endfilter %}{% endfor %}",
             "{% for x in c %}{% if x %}{% break %}{% else %}{% continue %}{% endif %}{{ x }}{% endfor %}",
             "{% for x in c %}{{ x }}{% else %}{% break %}{% endfor %}",
             "{% break %}",
